@@ -12,6 +12,6 @@ EXHAUSTIVE = False
 
 def run(R):
     R.mc("Models", "Models.cfg", workers=4, emit=False)
-    n = 150 if R.tier == "quick" else 3000
+    n = 150 if R.tier == "quick" else 800
     tr = R.record("X03", n)
     R.validate("Trace_Models", "Trace_Models.cfg", tr, key_of_event=lambda ev: "X03 models %s" % ev.get("op"), timeout=3000)
